@@ -40,12 +40,12 @@ FlagIdx(f) ==
     [] f = "D_LOCK_GARBAGE" -> 7 [] f = "D_GGLW_PARSE" -> 8 [] f = "D_CAS_SHAPED" -> 9 [] f = "D_NULL_RELOAD" -> 10 [] f = "D_ERR_CLOSES" -> 11 [] f = "D_UNSUB_TRAIL" -> 12
     [] f = "D_DISC_NOT_FORWARDED" -> 13 [] f = "D_SYNC_DROPS_REGS" -> 14 [] f = "D_IMPORT_VERSION" -> 15
     [] f = "D_FLAGS_NO_PERSIST" -> 16 [] f = "D_REDB_VERSION" -> 17
-    [] f = "D_UNSUBLS_ASYNC" -> 18 [] f = "D_PUB_BUFFER" -> 19 [] f = "D_CAS_OVERFLOW" -> 20 [] f = "D_REG_DELETE" -> 21 [] OTHER -> 22
-NFlags == 22
+    [] f = "D_UNSUBLS_ASYNC" -> 18 [] f = "D_PUB_BUFFER" -> 19 [] f = "D_CAS_OVERFLOW" -> 20 [] f = "D_REG_DELETE" -> 21 [] f = "D_LOCKMON_WAITER" -> 22 [] OTHER -> 23
+NFlags == 23
 FlagNames == <<"D_CAS_GHOST", "D_HASH_ZERO", "D_LAZY_HASH", "D_SYS_WILDCARD", "D_PUBLISH_SYS",
                "D_IMPORT_NO_LS", "D_LOCK_GARBAGE", "D_GGLW_PARSE", "D_CAS_SHAPED", "D_NULL_RELOAD",
                "D_ERR_CLOSES", "D_UNSUB_TRAIL", "D_DISC_NOT_FORWARDED", "D_SYNC_DROPS_REGS", "D_IMPORT_VERSION",
-               "D_FLAGS_NO_PERSIST", "D_REDB_VERSION", "D_UNSUBLS_ASYNC", "D_PUB_BUFFER", "D_CAS_OVERFLOW", "D_REG_DELETE", "D_OTHER">>
+               "D_FLAGS_NO_PERSIST", "D_REDB_VERSION", "D_UNSUBLS_ASYNC", "D_PUB_BUFFER", "D_CAS_OVERFLOW", "D_REG_DELETE", "D_LOCKMON_WAITER", "D_OTHER">>
 Flag(f) == f \in Dev /\ TLCSet(FlagIdx(f), TRUE)
 
 INT  == "int"                     \* INTERNAL_CLIENT_ID
@@ -132,6 +132,7 @@ InitS == [
   locks      |-> EmptyF,   \* lock values: path -> [holder, cands]; cands: Seq([c, reqs])
   lockNodes  |-> {<<>>},   \* nodes of the lock tree
   lockedKeys |-> EmptyF,   \* client -> Seq(path)
+  csubs      |-> EmptyF,   \* client -> number of subscriptions (ClientInfo.subscriptions); kept only with ExtMon
   clients    |-> {},
   spub       |-> EmptyF,   \* <<client, tid>> -> key
   down       |-> FALSE     \* core task panicked
@@ -454,35 +455,93 @@ DoImport(S, imp) ==
   IN [s |-> S2, rep |-> Ok, ev |-> FoldS(Ev, EmptyF, ins), ls |-> LsNotify(S2, lsn), lk |-> {}]
 
 (***************************************************************************)
+(* Extended monitoring (config.extended_monitoring): the server keeps      *)
+(* $SYS/subscriptions, $SYS/clients/<id>/subscriptions[/<pattern>],        *)
+(* $SYS/locks/<key> and $SYS/clients/<id>/connectedSince up to date with   *)
+(* internal set/delete requests - ordinary writes with their notifications *)
+(* (worterbuch.rs:493-528, 567-602, 730-775, 974-999, 1098-1103, 1236-1243,*)
+(* 1361-1373).  Off unless a model overrides ExtMon.                       *)
+(***************************************************************************)
+ExtMon == FALSE
+SUBS == "subscriptions"  LOCKS == "locks"  SINCE == "connectedSince"
+NOBODY == "~nobody~"  UNLOCKERR == "~err~"
+EscSeg(s) == IF s = "?" THEN "%3F" ELSE IF s = "#" THEN "%23" ELSE s      \* escape_wildcards
+Esc(p) == [i \in DOMAIN p |-> EscSeg(p[i])]
+NumT(n) == "j:" \o ToString(n)
+\* an internal follow-up request: its observations count, its reply does not; a panic does
+Mon(r, x) == LET y == ThenKeep(r, x) IN IF y.s.down THEN [y EXCEPT !.rep = Down] ELSE y
+ClientSubsKey(c) == <<SYS, CLIENTS, c, SUBS>>
+\* update_subscription_count
+MonCount(r, c, n) ==
+  IF r.s.down THEN r
+  ELSE IF n > 0 THEN Mon(r, DoSet(r.s, ClientSubsKey(c), NumT(n), INT, TRUE))
+  ELSE Mon(r, DoDelete(r.s, ClientSubsKey(c), INT))
+\* Worterbuch::locked
+MonLocked(r, holder, path) ==
+  IF ~ExtMon \/ r.s.down THEN r
+  \* unlock_all maps the refusal of an unlock (the departing client was waiting for the key, or does not
+  \* hold it any more) to "no holder" (`.ok().flatten()`, store.rs:1067): the entry of the real holder is
+  \* deleted  [D_LOCKMON_WAITER]
+  ELSE IF holder = UNLOCKERR /\ ~Flag("D_LOCKMON_WAITER") THEN r
+  ELSE IF holder \notin {NOBODY, UNLOCKERR} THEN Mon(r, DoSet(r.s, <<SYS, LOCKS>> \o Esc(path), holder, INT, TRUE))
+  ELSE Mon(r, DoDelete(r.s, <<SYS, LOCKS>> \o Esc(path), INT))
+Bump(S, c, d) ==      \* ClientInfo.subscriptions, saturating; unknown clients have none
+  IF ExtMon /\ c \in DOMAIN S.csubs
+    THEN [S EXCEPT !.csubs[c] = IF @ + d < 0 THEN 0 ELSE @ + d] ELSE S
+CSubs(S, c) == IF c \in DOMAIN S.csubs THEN S.csubs[c] ELSE 0
+\* the bookkeeping after a subscription has been registered (monKey: key, or escaped pattern)
+MonSubscribed(r, c, tid, monKey, skip) ==
+  IF ~ExtMon \/ r.rep # Ok THEN r
+  ELSE LET S3 == Bump(r.s, c, 1)
+           r0 == [r EXCEPT !.s = S3]
+       IN IF skip \/ c = INT THEN r0
+          ELSE LET m1 == Mon(r0, DoSet(S3, <<SYS, SUBS>>, NumT(Cardinality(DOMAIN S3.subIds)), INT, TRUE))
+                   m2 == IF m1.s.down THEN m1 ELSE Mon(m1, DoSet(m1.s, ClientSubsKey(c) \o monKey, NumT(tid), INT, TRUE))
+               IN MonCount(m2, c, CSubs(S3, c))
+
+(***************************************************************************)
 (* Subscriptions (worterbuch.rs:452-646, 710-812)                          *)
 (***************************************************************************)
 DoSubscribe(S, c, tid, path, unique, liveOnly) ==
   LET id  == <<c, tid>>
       sub == [id |-> id, pat |-> path, kind |-> "s", unique |-> unique]
       S2  == [S EXCEPT !.subs = @ \cup {sub}, !.subIds = (id :> path) @@ @]
-  IN IF ~liveOnly /\ HasWildcard(path) THEN Res(S, Err(FirstWildErr(path)))
-     ELSE IF ~liveOnly /\ HasVal(S.store, path)
-       THEN [Res(S2, Ok) EXCEPT !.ev = (id :> << {[t |-> "val", kvs |-> {<<path, S.store[path].v>>}]} >>)]
-       ELSE Res(S2, Ok)
+      r   == IF ~liveOnly /\ HasWildcard(path) THEN Res(S, Err(FirstWildErr(path)))
+             ELSE IF ~liveOnly /\ HasVal(S.store, path)
+               THEN [Res(S2, Ok) EXCEPT !.ev = (id :> << {[t |-> "val", kvs |-> {<<path, S.store[path].v>>}]} >>)]
+               ELSE Res(S2, Ok)
+  IN MonSubscribed(r, c, tid, path, path[1] = SYS)
 
 DoPSubscribe(S, c, tid, pat, unique, liveOnly) ==
   LET id  == <<c, tid>>
       sub == [id |-> id, pat |-> pat, kind |-> "p", unique |-> unique]
       S2  == [S EXCEPT !.subs = @ \cup {sub}, !.subIds = (id :> pat) @@ @]
       r   == PGetKvs(S, pat)
-  IN IF ~Legal(pat) /\ ((~liveOnly /\ r.err) \/ ~Flag("D_LAZY_HASH")) THEN Res(S, Err(E_MULTI))
-     ELSE IF liveOnly THEN Res(S2, Ok)
-     ELSE IF r.err THEN Res(S, Err(E_MULTI))
-     ELSE [Res(S2, Ok) EXCEPT
-             !.ev = (id :> << {[t |-> "val", kvs |-> {<<kv[1], kv[2].v>> : kv \in r.kvs}]} >>)]
+      res == IF ~Legal(pat) /\ ((~liveOnly /\ r.err) \/ ~Flag("D_LAZY_HASH")) THEN Res(S, Err(E_MULTI))
+             ELSE IF liveOnly THEN Res(S2, Ok)
+             ELSE IF r.err THEN Res(S, Err(E_MULTI))
+             ELSE [Res(S2, Ok) EXCEPT
+                     !.ev = (id :> << {[t |-> "val", kvs |-> {<<kv[1], kv[2].v>> : kv \in r.kvs}]} >>)]
+  IN MonSubscribed(res, c, tid, Esc(pat), pat = <<MULTI>> \/ pat[1] = SYS)
 
 DoUnsubscribe(S, c, tid) ==
   LET id == <<c, tid>> IN
   IF id \notin DOMAIN S.subIds THEN Res(S, Err(E_NOTSUB))
   ELSE LET pat == S.subIds[id]
            rm  == {s \in S.subs : s.id = id /\ s.pat = pat}
-           S2  == [S EXCEPT !.subs = @ \ rm, !.subIds = RestrictF(@, DOMAIN @ \ {id})]
-       IN Res(S2, IF rm = {} THEN Err(E_NOTSUB) ELSE Ok)
+           \* do_unsubscribe: the id leaves the table first, the bookkeeping requests follow while the
+           \* subscriber is still in the tree, which it leaves last
+           S1  == Bump([S EXCEPT !.subIds = RestrictF(@, DOMAIN @ \ {id})], c, -1)
+           m0  == Res(S1, Ok)
+           m1  == IF ExtMon /\ pat[1] # MULTI /\ pat[1] # SYS /\ c # INT
+                    THEN MonCount(Mon(m0, DoDelete(S1, ClientSubsKey(c) \o Esc(pat), INT)), c, CSubs(S1, c))
+                    ELSE m0
+           m2  == IF ExtMon /\ c # INT /\ ~m1.s.down
+                    THEN Mon(m1, DoSet(m1.s, <<SYS, SUBS>>, NumT(Cardinality(DOMAIN m1.s.subIds)), INT, TRUE))
+                    ELSE m1
+           S2  == [m2.s EXCEPT !.subs = @ \ rm]
+       IN IF m2.s.down THEN m2
+          ELSE [m2 EXCEPT !.s = S2, !.rep = IF rm = {} THEN Err(E_NOTSUB) ELSE Ok]
 
 DoSubscribeLs(S, c, tid, parent) ==
   LET id   == <<c, tid>>
@@ -526,8 +585,8 @@ DoLock(S, path, c) ==
   IF HasWildcard(path) THEN Res(S, Err(FirstWildErr(path)))
   ELSE LET S1 == GetOrCreateLockNode(S, path) IN
     IF path \in DOMAIN S1.locks THEN
-      IF S1.locks[path].holder = c THEN Res(S1, Ok) ELSE Res(S1, Err(E_LOCKED))
-    ELSE Res(PushLocked([S1 EXCEPT !.locks = (path :> [holder |-> c, cands |-> <<>>]) @@ @], c, path), Ok)
+      IF S1.locks[path].holder = c THEN MonLocked(Res(S1, Ok), c, path) ELSE Res(S1, Err(E_LOCKED))
+    ELSE MonLocked(Res(PushLocked([S1 EXCEPT !.locks = (path :> [holder |-> c, cands |-> <<>>]) @@ @], c, path), Ok), c, path)
 
 \* req identifies the confirmation channel of this request
 DoAcquireLock(S, path, c, req) ==
@@ -535,14 +594,14 @@ DoAcquireLock(S, path, c, req) ==
   ELSE LET S1 == GetOrCreateLockNode(S, path) IN
     IF path \in DOMAIN S1.locks THEN
       LET l == S1.locks[path] IN
-      IF l.holder = c THEN [Res(PushLocked(S1, c, path), Ok) EXCEPT !.lk = {<<req, "granted">>}]
+      IF l.holder = c THEN MonLocked([Res(PushLocked(S1, c, path), Ok) EXCEPT !.lk = {<<req, "granted">>}], c, path)
       ELSE LET idx == {i \in 1..Len(l.cands) : l.cands[i].c = c}
                cs  == IF idx = {} THEN Append(l.cands, [c |-> c, reqs |-> {req}])
                       ELSE [i \in 1..Len(l.cands) |->
                               IF i \in idx THEN [l.cands[i] EXCEPT !.reqs = @ \cup {req}] ELSE l.cands[i]]
-           IN Res(PushLocked([S1 EXCEPT !.locks[path].cands = cs], c, path), Ok)
-    ELSE [Res(PushLocked([S1 EXCEPT !.locks = (path :> [holder |-> c, cands |-> <<>>]) @@ @], c, path), Ok)
-            EXCEPT !.lk = {<<req, "granted">>}]
+           IN MonLocked(Res(PushLocked([S1 EXCEPT !.locks[path].cands = cs], c, path), Ok), l.holder, path)
+    ELSE MonLocked([Res(PushLocked([S1 EXCEPT !.locks = (path :> [holder |-> c, cands |-> <<>>]) @@ @], c, path), Ok)
+                      EXCEPT !.lk = {<<req, "granted">>}], c, path)
 
 \* Store::unlock + Lock::release
 Unlock(S, path, c) ==
@@ -564,9 +623,16 @@ Unlock(S, path, c) ==
             EXCEPT !.lk = UNION {{<<r, "cancelled">> : r \in l.cands[i].reqs} : i \in gone}]
   ELSE Res(S1, Err(E_NOTLOCKED))
 
+\* whom Store::unlock reports as the new holder
+NextHolder(S, path, c) ==
+  IF path \in DOMAIN S.locks /\ S.locks[path].holder = c
+    THEN IF S.locks[path].cands # <<>> THEN Head(S.locks[path].cands).c ELSE NOBODY
+    ELSE UNLOCKERR
+
 DoReleaseLock(S, path, c) ==
   IF HasWildcard(path) THEN Res(S, Err(FirstWildErr(path)))
-  ELSE Unlock(S, path, c)
+  ELSE LET r == Unlock(S, path, c) IN
+       IF r.rep = Ok THEN MonLocked(r, NextHolder(S, path, c), path) ELSE r
 
 \* Store::unlock_all: every path ever pushed for the client, in order, errors ignored
 RECURSIVE UnlockSeq(_, _, _)
@@ -574,9 +640,22 @@ UnlockSeq(r, paths, c) ==
   IF paths = <<>> \/ r.s.down THEN r
   ELSE UnlockSeq(ThenKeep(r, Unlock(r.s, Head(paths), c)), Tail(paths), c)
 
+\* the new holders unlock_all reports, path by path (each computed on the state its unlock starts from)
+RECURSIVE HoldersSeq(_, _, _)
+HoldersSeq(X, paths, c) ==
+  IF paths = <<>> \/ X.down THEN <<>>
+  ELSE <<NextHolder(X, Head(paths), c)>> \o HoldersSeq(Unlock(X, Head(paths), c).s, Tail(paths), c)
+RECURSIVE MonLockedSeq(_, _, _)
+MonLockedSeq(r, paths, holders) ==
+  IF paths = <<>> \/ holders = <<>> \/ r.s.down THEN r
+  ELSE MonLockedSeq(MonLocked(r, Head(holders), Head(paths)), Tail(paths), Tail(holders))
+
 UnlockAll(S, c) ==
   IF c \in DOMAIN S.lockedKeys
-    THEN UnlockSeq(Res([S EXCEPT !.lockedKeys = RestrictF(@, DOMAIN @ \ {c})], Ok), S.lockedKeys[c], c)
+    THEN LET S0 == [S EXCEPT !.lockedKeys = RestrictF(@, DOMAIN @ \ {c})]
+             r  == UnlockSeq(Res(S0, Ok), S.lockedKeys[c], c)
+         \* worterbuch.rs:1235-1243: afterwards, one bookkeeping request per reported key
+         IN IF ExtMon THEN MonLockedSeq(r, S.lockedKeys[c], HoldersSeq(S0, S.lockedKeys[c], c)) ELSE r
     ELSE Res(S, Ok)
 
 (***************************************************************************)
@@ -589,11 +668,13 @@ ClientKey(c, leaf) == <<SYS, CLIENTS, c, leaf>>
 DoConnected(S, c, proto, addr) ==
   IF c \in S.clients THEN Res(S, Err(E_COLLISION))
   ELSE
-    LET S1 == [S EXCEPT !.clients = @ \cup {c}]
+    LET S1 == [S EXCEPT !.clients = @ \cup {c}, !.csubs = IF ExtMon THEN (c :> 0) @@ @ ELSE @]
         r1 == DoSet(S1, ClientsKey, NumTok(Cardinality(S1.clients)), INT, TRUE)
         r2 == Then(r1, DoSet(r1.s, ClientKey(c, "protocol"), proto, INT, TRUE))
         r3 == Then(r2, DoSet(r2.s, ClientKey(c, "address"), addr, INT, TRUE))
-    IN [r3 EXCEPT !.rep = Ok]
+        \* the time of the connection is environment: the harness reports it as the token "ts"
+        r4 == IF ExtMon /\ c # INT THEN Then(r3, DoSet(r3.s, ClientKey(c, SINCE), "ts", INT, TRUE)) ELSE r3
+    IN [r4 EXCEPT !.rep = Ok]
 
 GGOf(S, c) ==
   LET k == ClientKey(c, GG) IN
@@ -612,21 +693,37 @@ WillSeq(r, lws, c) ==
   IF lws = <<>> \/ r.s.down THEN r
   ELSE WillSeq(ThenKeep(r, DoSet(r.s, Head(lws).k, Head(lws).v, c, TRUE)), Tail(lws), c)
 
+\* do_unsubscribe for every subscription of the departing client (extended monitoring: with the
+\* bookkeeping requests of each).  The order is that of a HashMap: the events of the whole loop are
+\* reported as one unordered batch per subscriber.
+RECURSIVE UnsubAll(_, _, _)
+UnsubAll(r, ids, c) ==
+  IF ids = {} \/ r.s.down THEN r
+  ELSE LET id == CHOOSE x \in ids : TRUE IN UnsubAll(ThenKeep(r, DoUnsubscribe(r.s, c, id[2])), ids \ {id}, c)
+OneBatch(ev) == [id \in DOMAIN ev |-> << UNION {ev[id][i] : i \in DOMAIN ev[id]} >>]
+
 DoDisconnected(S, c) ==
   LET S1 == [S EXCEPT !.spub = RestrictF(@, {x \in DOMAIN @ : x[1] # c})]
       r2 == UnlockAll(S1, c)
       gg == GGOf(r2.s, c)
       lw == LWOf(r2.s, c)
-      S3 == [r2.s EXCEPT !.clients = @ \ {c}]
+      S3 == [r2.s EXCEPT !.clients = @ \ {c}, !.csubs = RestrictF(@, DOMAIN @ \ {c})]
       r4 == ThenKeep(r2, DoSet(S3, ClientsKey, NumTok(Cardinality(S3.clients)), INT, TRUE))
+      mine == {id \in DOMAIN r4.s.subIds : id[1] = c}
+      loop == UnsubAll(Res(r4.s, Ok), mine, c)
+      r5x  == Then(r4, [loop EXCEPT !.ev = OneBatch(@)])
       \* do_unsubscribe for every subscription of c.  Its ls-subscriptions are not touched by
       \* `disconnected`: they end when the session drops its receivers, i.e. they are still
       \* notified of everything the remaining sub-steps change
       S5 == [r4.s EXCEPT !.subs = {s \in @ : s.id[1] # c},
                          !.subIds = RestrictF(@, {x \in DOMAIN @ : x[1] # c})]
-      r6 == ThenKeep([r4 EXCEPT !.s = S5], DoPDelete(S5, <<SYS, CLIENTS, c, MULTI>>, INT))
+      r5 == IF ExtMon THEN [r5x EXCEPT !.rep = r4.rep] ELSE [r4 EXCEPT !.s = S5]
+      r6 == ThenKeep(r5, DoPDelete(r5.s, <<SYS, CLIENTS, c, MULTI>>, INT))
       r7 == BurySeq(r6, gg, c)
-      r8 == WillSeq(r7, lw, c)
+      r8w == WillSeq(r7, lw, c)
+      \* worterbuch.rs:1361-1373
+      r8 == IF ExtMon /\ ~r8w.s.down
+              THEN Mon(r8w, DoSet(r8w.s, <<SYS, SUBS>>, NumT(Cardinality(DOMAIN r8w.s.subIds)), INT, TRUE)) ELSE r8w
       \* ... and are gone afterwards (lazily in the code: at the next failing send)
       S9 == [r8.s EXCEPT !.lsSubs = {s \in @ : s.id[1] # c},
                          !.lsIds = RestrictF(@, {x \in DOMAIN @ : x[1] # c})]
